@@ -807,6 +807,8 @@ pub enum GenTy {
     Usize,
     OptF64,
     OptI32,
+    /// drop-tracked items (only `full` / `empty`)
+    Trk,
 }
 
 impl GenTy {
@@ -819,6 +821,7 @@ impl GenTy {
             GenTy::Usize => "usize",
             GenTy::OptF64 => "opt_f64",
             GenTy::OptI32 => "opt_i32",
+            GenTy::Trk => "tracked",
         }
     }
     pub fn parse(s: &str) -> Result<GenTy, String> {
@@ -830,6 +833,7 @@ impl GenTy {
             "usize" => GenTy::Usize,
             "opt_f64" => GenTy::OptF64,
             "opt_i32" => GenTy::OptI32,
+            "tracked" => GenTy::Trk,
             _ => return Err(format!("bad gen ty {s}")),
         })
     }
